@@ -80,7 +80,8 @@ class MDCPDP(Adapter):
     def shapes(self, tier):
         """(nd, P, capacity vectors, capfmt)"""
         if tier == "quick":
-            return [(1, 2, [[1], [2]], "gen"), (2, 1, [[1, 1]], "env"), (2, 2, [[1, 1], [2, 2]], "env")]
+            return [(1, 2, [[1], [2]], "gen"), (2, 1, [[1, 1]], "env"), (2, 2, [[1, 1], [2, 2]], "env"),
+                    (3, 1, [[1, 1, 1]], "env")]
         return [(1, 1, [[1]], "gen"), (1, 2, [[1], [2], [3]], "gen"),
                 (2, 1, [[1, 1], [2, 2]], "env"), (2, 2, [[1, 1], [2, 2]], "env"), (3, 1, [[1, 1, 1]], "env")]
 
@@ -89,6 +90,8 @@ class MDCPDP(Adapter):
         if tier == "quick":
             row = [(1, "minsum", 4, "L2"), (0, "minmax", 4, "L1"), (1, "lateness", 4, "L2"), (0, "lateness", 1, "L1")]
             bat = [(1, "minsum", 4, "L2"), (0, "minmax", 4, "L1")] if (nd, P) != (2, 1) else []
+            if nd == 3:
+                row, bat = row[:2], []
             return [m + ("row",) for m in row] + [m + ("batch",) for m in bat]
         return [m + (e,) for m in MODES_FULL for e in ("row", "batch")]
 
